@@ -56,6 +56,10 @@ def main(argv):
     spec = props.PROPS[pid]
     try:
         rc, ev, lines, ctx = core.run_property(pid, spec, tier, repo)
+        if rc == 2 and replay is None:
+            for l in lines:
+                print(l)
+            return 2
         if tier == 'thorough' and replay is None:
             from sa import selftest
             st = selftest.run(pid, spec)
